@@ -147,10 +147,22 @@ bool buildModel(Model& m, const NiVersion& ver, Slot slot, const std::vector<std
 	else {
 		for (size_t i = 0; i < n; i += 10) {
 			std::string name = "s" + std::to_string(i / 10);
-			auto s = m.nif.CreateShapeFromData(name, &V3, &T1, &UV3);
-			if (!s) return false;
-			m.nif.DeleteShader(s);   // GetTextureSlot prefers a shader's texture set over the texturing property
-			s = m.nif.FindBlockByName<NiShape>(name);
+			NiShape* s = nullptr;
+			if ((i / 10) % 2 == 1 && m.nif.GetRootNode()) {
+				// every second carrier is a particle shape (NiGeometry, but not triangle based): it has a property list like any other shape
+				auto ps = std::make_unique<NiAutoNormalParticles>();
+				ps->name.get() = name;
+				uint32_t pid = hdr.AddBlock(std::move(ps));
+				m.nif.GetRootNode()->childRefs.AddBlockRef(pid);
+				s = m.nif.FindBlockByName<NiShape>(name);
+				if (!s) return false;
+			}
+			else {
+				s = m.nif.CreateShapeFromData(name, &V3, &T1, &UV3);
+				if (!s) return false;
+				m.nif.DeleteShader(s);   // GetTextureSlot prefers a shader's texture set over the texturing property
+				s = m.nif.FindBlockByName<NiShape>(name);
+			}
 			auto tp = std::make_unique<NiTexturingProperty>();
 			tp->textureCount = hdr.GetVersion().File() >= V20_2_0_5 ? 12 : 10;   // from 20.2.0.5 on the last two decal slots are only stored when the count exceeds 10 / 11
 			bool* has[10] = {&tp->hasBaseTex, &tp->hasDarkTex, &tp->hasDetailTex, &tp->hasGlossTex, &tp->hasGlowTex, &tp->hasBumpTex, &tp->hasDecalTex0, &tp->hasDecalTex1, &tp->hasDecalTex2, &tp->hasDecalTex3};
@@ -172,9 +184,10 @@ bool buildModel(Model& m, const NiVersion& ver, Slot slot, const std::vector<std
 
 std::vector<std::string> readBack(NifFile& nif, Slot slot, size_t n) {
 	std::vector<std::string> out;
-	auto shapes = nif.GetShapes();
+	// shapes are looked up block by block (not through GetShapes, which is also what the clean-up itself walks)
 	std::map<std::string, NiShape*> byName;
-	for (auto s : shapes) byName[s->name.get()] = s;
+	for (uint32_t b = 0; b < nif.GetHeader().GetNumBlocks(); b++)
+		if (auto s = nif.GetHeader().GetBlock<NiShape>(b)) byName[s->name.get()] = s;
 	if (slot == TEXSET) {
 		auto s = byName["s0"];
 		for (size_t i = 0; i < n; i++) { std::string t; if (s) nif.GetTextureSlot(s, t, (uint32_t)i); out.push_back(t); }
